@@ -106,6 +106,14 @@ CHECKS["C17"] = dict(
     design_ref="§2 C17",
 )
 
+CHECKS["C20"] = dict(
+    engine="bfs",
+    technique="explicit-state enumeration: (system states reached by all operation histories up to depth 3/4, deduplicated on the concrete read-out) x (every GET route of the real route table) x (a finite parameter menu), full concrete state compared before/after every request",
+    text="Routes are taken from the FastAPI route table after setup_routes() (39 GET routes, cross-checked against openapi()); ~175 requests per state through starlette TestClient (existing / missing / malformed ids per path parameter, each query parameter over its menu, limit in {0,1,2,20,-1,10^6,'x',''}); states: histories over submit, submit x21 (queue longer than the page), claim, run ok/fail/spawn-child, block-on-child, heartbeat, service record, trigger event, clock +25h, purge of exactly one component, on memory and on SQLite (monitor = second app object on the same file). Oracle: queue in order, every attribute of orchestrator / blocking control / state backend / trigger / data store (memory) or every row of every table (SQLite) identical after each request, whatever the status code.",
+    note="The monitor's own selection state is not 'the system'. Lazily created locks, empty defaultdict entries and two read caches are not counted as state (listed in the evidence). One recorded finding per backend: the queue view rotates queues longer than the limit (no peek in the broker API).",
+    design_ref="§2 C20",
+)
+
 NOT_YET = "check not built yet in this session (planned, see DESIGN.md §2)"
 
 
